@@ -33,7 +33,9 @@ func main() {
 	}
 	switch os.Args[2] {
 	case "quick", "thorough":
-		os.Exit(report.Main(c, os.Args[2], os.Args[3:]))
+		rc := report.Main(c, os.Args[2], os.Args[3:])
+		profStop()
+		os.Exit(rc)
 	case "replay":
 		if len(os.Args) < 4 {
 			fmt.Fprintln(os.Stderr, "replay needs a file")
